@@ -819,9 +819,44 @@ Proof.
   destruct (frame_feed c f d) as [f1 ev1]. destruct (upper (c_impl c) sc ev1). exact W1.
 Qed.
 
-Lemma conn_data_wf c s d : conn_wf c s -> conn_wf c (fst (conn_data c s d)).
+(* the handshake phase presented as one pattern match on (octets so far ++ read); on well-formed states (fewer than four
+   handshake octets buffered) it is what both implementations' slicing computes *)
+Definition conn_data_pm (c : cfg) (s : cstate) (d : list N) : cstate * list ev :=
+  match ph s with
+  | PHs hb =>
+      match hb ++ d with
+      | o1 :: o2 :: o3 :: o4 :: rest => hs_apply c s o1 o2 o3 o4 rest
+      | few => ({| ph := PHs few; sess := sess s; script := script s |}, [])
+      end
+  | PEst ser ms f =>
+      let '(p, sc, evs) := data_est c ser ms f (script s) d in
+      ({| ph := p; sess := sess s; script := sc |}, evs)
+  | PDead | PGone => (s, [])
+  end.
+
+Lemma hs_take_spec i hb d : (length hb < 4)%nat -> hs_take i hb d = (firstn 4 (hb ++ d), skipn 4 (hb ++ d)).
 Proof.
-  unfold conn_wf, conn_data. destruct (ph s) as [hb|ser ms f| |] eqn:P.
+  intros H. destruct i; cbn [hs_take]; [|reflexivity].
+  rewrite firstn_app, skipn_app. rewrite (firstn_all2 hb) by lia.
+  rewrite (skipn_all2 hb) by lia. reflexivity.
+Qed.
+
+Lemma take4_match {B} (l : list N) (F : N -> N -> N -> N -> list N -> B) (G : list N -> B) :
+  (let '(h4, rest) := (firstn 4 l, skipn 4 l) in
+   match h4 with [o1; o2; o3; o4] => F o1 o2 o3 o4 rest | few => G few end) =
+  match l with o1 :: o2 :: o3 :: o4 :: rest => F o1 o2 o3 o4 rest | few => G few end.
+Proof. destruct l as [|o1 [|o2 [|o3 [|o4 rest]]]]; reflexivity. Qed.
+
+Lemma conn_data_eq c s d : conn_wf c s -> conn_data c s d = conn_data_pm c s d.
+Proof.
+  unfold conn_wf, conn_data, conn_data_pm. destruct (ph s) as [hb|ser ms f| |]; try reflexivity.
+  intros [Hl _]. rewrite (hs_take_spec _ hb d Hl).
+  destruct (hb ++ d) as [|o1 [|o2 [|o3 [|o4 rest]]]]; reflexivity.
+Qed.
+
+Lemma conn_data_pm_wf c s d : conn_wf c s -> conn_wf c (fst (conn_data_pm c s d)).
+Proof.
+  unfold conn_wf, conn_data_pm, hs_apply. destruct (ph s) as [hb|ser ms f| |] eqn:P.
   - intros [Hl Hs]. destruct (hb ++ d) as [|o1 [|o2 [|o3 [|o4 rest]]]] eqn:E;
       try (cbn [fst ph sess]; split; [cbn [length]; lia|assumption]).
     destruct (hs_decide c o1 o2 o3 o4).
@@ -838,7 +873,7 @@ Proof.
 Qed.
 
 Ltac short_case b :=
-  unfold conn_data; cbn [ph script sess];
+  unfold conn_data_pm, hs_apply; cbn [ph script sess];
   match goal with |- context [match ?l ++ b with _ => _ end] =>
     destruct (l ++ b) as [|?y1 [|?y2 [|?y3 [|?y4 ?r]]]]; try reflexivity;
     match goal with |- context [hs_decide ?c ?a1 ?a2 ?a3 ?a4] =>
@@ -846,11 +881,11 @@ Ltac short_case b :=
   end.
 
 (* segmentation independence of the whole connection (handshake octets, frames, session calls, transport calls) *)
-Lemma conn_data_app c s a b : conn_wf c s ->
-  conn_data c s (a ++ b) =
-    let '(s1, e1) := conn_data c s a in let '(s2, e2) := conn_data c s1 b in (s2, e1 ++ e2).
+Lemma conn_data_pm_app c s a b : conn_wf c s ->
+  conn_data_pm c s (a ++ b) =
+    let '(s1, e1) := conn_data_pm c s a in let '(s2, e2) := conn_data_pm c s1 b in (s2, e1 ++ e2).
 Proof.
-  intros W. unfold conn_wf in W. unfold conn_data at 1 2. destruct (ph s) as [hb|ser ms f| |] eqn:P.
+  intros W. unfold conn_wf in W. unfold conn_data_pm at 1 2. unfold hs_apply. destruct (ph s) as [hb|ser ms f| |] eqn:P.
   - destruct W as [Hl Hs]. rewrite app_assoc.
     destruct (hb ++ a) as [|o1 [|o2 [|o3 [|o4 rest]]]] eqn:E.
     + short_case b.
@@ -862,19 +897,32 @@ Proof.
         pose proof (data_est_wf c ser max_send (FOpen [] None) (script s) rest (frame_wf_init c)) as W1.
         destruct (data_est c ser max_send (FOpen [] None) (script s) rest) as [[p1 sc1] e1].
         destruct p1 as [|ser1 ms1 f1| |]; try contradiction.
-        unfold conn_data. cbn [ph script sess].
+        unfold conn_data_pm, hs_apply. cbn [ph script sess].
         destruct (data_est c ser1 ms1 f1 sc1 b) as [[p2 sc2] e2].
         f_equal. rewrite <- !app_assoc. cbn [app]. rewrite <- !app_assoc. reflexivity.
-      * unfold conn_data. cbn [ph]. now rewrite app_nil_r.
-      * unfold conn_data. cbn [ph]. now rewrite app_nil_r.
+      * unfold conn_data_pm, hs_apply. cbn [ph]. now rewrite app_nil_r.
+      * unfold conn_data_pm, hs_apply. cbn [ph]. now rewrite app_nil_r.
   - destruct W as [W Hs]. rewrite (data_est_app c ser ms f (script s) a b W).
     pose proof (data_est_wf c ser ms f (script s) a W) as W1.
     destruct (data_est c ser ms f (script s) a) as [[p1 sc1] e1].
     destruct p1 as [|ser1 ms1 f1| |]; try contradiction.
-    unfold conn_data. cbn [ph script sess].
+    unfold conn_data_pm, hs_apply. cbn [ph script sess].
     destruct (data_est c ser1 ms1 f1 sc1 b) as [[p2 sc2] e2]. reflexivity.
-  - unfold conn_data. rewrite P. reflexivity.
-  - unfold conn_data. rewrite P. reflexivity.
+  - unfold conn_data_pm. rewrite P. reflexivity.
+  - unfold conn_data_pm. rewrite P. reflexivity.
+Qed.
+
+Lemma conn_data_wf c s d : conn_wf c s -> conn_wf c (fst (conn_data c s d)).
+Proof. intros W. rewrite (conn_data_eq c s d W). now apply conn_data_pm_wf. Qed.
+
+(* segmentation independence of the whole connection (handshake octets, frames, session calls, transport calls) *)
+Lemma conn_data_app c s a b : conn_wf c s ->
+  conn_data c s (a ++ b) =
+    let '(s1, e1) := conn_data c s a in let '(s2, e2) := conn_data c s1 b in (s2, e1 ++ e2).
+Proof.
+  intros W. rewrite (conn_data_eq c s (a ++ b) W), (conn_data_eq c s a W), (conn_data_pm_app c s a b W).
+  pose proof (conn_data_pm_wf c s a W) as W1. destruct (conn_data_pm c s a) as [s1 e1]. cbn [fst] in W1.
+  now rewrite (conn_data_eq c s1 b W1).
 Qed.
 
 Lemma conn_run_split c s a b rest : conn_wf c s ->
@@ -895,7 +943,7 @@ Lemma conn_run_segs c : forall segs s, conn_wf c s ->
   conn_run c s (map IData segs) = conn_data c s (concat segs).
 Proof.
   induction segs as [|d r IH]; intros s W; cbn [map concat conn_run].
-  - unfold conn_wf in W. unfold conn_data. destruct (ph s) as [hb| ser ms f | |] eqn:P.
+  - rewrite (conn_data_eq c s [] W). unfold conn_wf in W. unfold conn_data_pm. destruct (ph s) as [hb| ser ms f | |] eqn:P.
     + rewrite app_nil_r. destruct W as [Hl Hs].
       destruct hb as [|o1 [|o2 [|o3 [|o4 rest]]]]; try (cbn [length] in Hl; lia);
         destruct s as [p se sc]; cbn [ph sess script] in *; subst; reflexivity.
